@@ -22,7 +22,7 @@ from tracelib import *
 PROP = "C20"
 LEVEL = "exploration"
 FLAVOUR = "plain"
-TIERS = {"quick": (300, 170), "thorough": (12000, 3300)}
+TIERS = {"quick": (260, 170), "thorough": (12000, 3300)}
 RULE_TEXT = ("one run = one generated document (promela or null datamodel, up to 3 nested invoked machines with explicit ids, many event names and string literals) "
              "transpiled by 2 live instances x 2 processes (ASLR on / off, different seeded heap warm-up) x 3 back-ends, plus interpretation of the document under one "
              "history with cache files off / cold / warm / stale / truncated / unwritable; non-trivial = at least two back-ends produced output and the interpretation "
